@@ -31,7 +31,7 @@ def gen_workflow(rng, nmax=7):
         rep = same_stage_pred and rng.random() < 0.35 or (preds and rng.random() < 0.05)
         agg = len(preds) >= 2 and rng.random() < 0.4
         W.append(comp(stage=st, rep=bool(rep), agg=agg, repl=rng.random() < 0.35, preds=preds,
-                      sd=rng.choice([[], [], ['KnownIssue'], ['KnownIssue', 'ResourceExhausted'], ['SystemIssue']]),
+                      sd=rng.choice([[], [], ['KnownIssue'], ['KnownIssue', 'ResourceExhausted'], ['SystemIssue'], ['Success', 'KnownIssue']]),
                       ro=rng.choice([['ResourceExhausted'], ['ResourceExhausted', 'KnownIssue'], [], ['SubmissionFailed']]),
                       mx=rng.choice([0, 1, 2, 3])))
     return W
@@ -58,11 +58,11 @@ def obs_tuple(o):
     return (comps, o['done'], o['stop'], o['pmq'], o['finq'], o['running'], v, o['cur'] + 1)
 
 
-def explore(W, outcome, chooser, maxlen=400, slow_pm=False, sleepy=False, start_at=0):
+def explore(W, outcome, chooser, maxlen=400, slow_pm=False, sleepy=False, start_at=0, with_cdb=False):
     """Runs one schedule to completion. chooser(enabled_events, step) -> index. Returns
     (trace [(event, obs_before, obs_after)], driver_errors, complete?)"""
     import sched_driver as S
-    d = S.Driver(W, outcome)
+    d = S.Driver(W, outcome, with_cdb=with_cdb)
     d.slow_pm = slow_pm
     d.sleepy = sleepy
     d.cur = start_at - 1        # start_at > 0: the experiment is restarted from that stage (earlier stages are skipped)
